@@ -10,7 +10,7 @@ LEVEL = "exploration"
 RULE = (
     "seeded batch-free Tasklang programs (trees of tasks in 9 calling styles incl. methods, classmethods, "
     "staticmethods, async_proxy, pure, plain functions and a function with an explicit hand-written asyncio_fn; "
-    "ConstFuture and None leaves; tuple/list/dict structures nested and empty; raises and try/except at any level, "
+    "ConstFuture (also holding an exception INSTANCE as its value) and None leaves; tuple/list/dict structures nested and empty; raises and try/except at any level, "
     "several failing awaitables in one yield). Three-way equality of asyncio.run(fn.asyncio()), fn() and the sequential "
     "reference, at the root and for everything every task received; at every exception delivery under asyncio every "
     "task awaited in that yield has finished; is_asyncio_mode() is False before, after (also after failure) and in an "
@@ -32,7 +32,7 @@ PROFILE = gen.profile(
     exc_cls=["exc"],
     try_kinds=["exc", "exc", "none"],
     w_stmt=dict(sync=0, raise_=0.5, try_=2.0, with_=0, ret=0.3, orphan=0, read=0, probe=0.5),
-    w_leaf=dict(call=8, item=0, const=2.5, none=1.2, err=0, lazy=0, again=0, junk=0, dbg=0),
+    w_leaf=dict(call=8, item=0, const=2.5, none=1.2, err=0, lazy=0, again=0, junk=0, dbg=0, constexc=1.0),
     w_struct=dict(leaf=3, tuple=3, list=3, dict=2),
     p_try_raise=0.6,
     p_try_matches=0.7,
